@@ -1529,7 +1529,7 @@ func ReadLV(r io.Reader) ([]byte, error) {
 		return nil, fmt.Errorf("read message size: %s", err)
 	}
 
-	if sz >= MaxMessageSize {
+	if sz < 0 || sz >= MaxMessageSize {
 		return nil, fmt.Errorf("max message size of %d exceeded: %d", MaxMessageSize, sz)
 	}
 
